@@ -25,6 +25,29 @@ def peer(i):
     return ("10.0.%d.%d" % (i // 250, i % 250 + 1), 4000 + i)
 
 
+def request_text(ver, cl, ka, body):
+    """a complete HTTP request and what its head says: (bytes, chunked, has a usable length)"""
+    lines = ["%s /idle HTTP/%s" % ("POST" if body in ("len", "badlen", "chunked") else "GET",
+                                    "1.1" if ver == "11" else "1.0"), "Host: example"]
+    conn = (["Keep-Alive"] if ka else []) + (["close"] if cl else [])
+    if conn:
+        lines.append("Connection: " + ", ".join(conn))
+    payload = b""
+    if body == "len":
+        lines.append("Content-Length: 3")
+        payload = b"abc"
+    elif body == "badlen":
+        lines.append("Content-Length: abc")
+    elif body == "chunked":
+        lines.append("Transfer-Encoding: chunked")
+        payload = b"3\r\nabc\r\n0\r\n\r\n"
+    text = "\r\n".join(lines).encode("ascii") + b"\r\n\r\n" + payload
+    chunked = body == "chunked"
+    # no Content-Length and not chunked: "assume no body so length 0"; an unparsable one: length None
+    has_length = body in ("none", "len")
+    return text, chunked, has_length
+
+
 class Listen:
     def __init__(self):
         self.queue = deque()
@@ -101,6 +124,17 @@ class Rig:
             else:
                 ix.tx(b"t" * op[2])
                 ix.serviceTxes()
+        elif name == "req":
+            ix, req = self.ix(op[1]), self.requestant(op[1])
+            if ix is None or req is None:
+                return
+            text, _, _ = request_text(*op[2:])
+            if not ix.cutoff:
+                del ix.rxbs[:]             # the application has consumed what `rx` operations delivered earlier,
+                req.makeParser()           # and waits for a new message
+            self.socks[op[1]].recvs.append(("data", text))
+            ix.serviceReceives()           # bytes arrive (nothing is read on a cut-off connection) ...
+            req.parse()                    # ... and the head is parsed: parseHead -> checkPersisted
         elif name == "cp":
             req = self.requestant(op[1])
             if req is None or self.ix(op[1]) is None:
@@ -170,8 +204,9 @@ class CHECK(core.Check):
     TRUSTED = ["correspondence: the real Valet / Porter over Server / ServerTls run in-process with listen and socket doubles "
                "(ssl context stub whose wrap_socket returns the double; handshake answers 'done'); the store's stamp is the "
                "clock and is set by the harness in multiples of 1/8 s, so the float arithmetic of StoreTimer is exact",
-               "a request head is delivered by setting version / headers / chunked / length on the connection's real "
-               "Requestant and calling its checkPersisted(); the HTTP parser is properties C29-C31",
+               "`req` feeds real request bytes through the double and calls the connection's Requestant.parse() (real "
+               "parseHead -> checkPersisted); `cp` sets version / headers / chunked / length on that Requestant and calls "
+               "checkPersisted() directly; the full HTTP parser is properties C29-C31",
                "bytes moved = what the socket double accepted / returned"]
     PARTIAL = ["model = repaired IncomerTls (fixes/D15-incomertls-refresh.patch); on the unpatched tree a busy TLS connection "
                "closed T after accept is a VIOLATION (C28_D15_orig_tls_drops_busy)",
@@ -192,7 +227,7 @@ class CHECK(core.Check):
                   "record layer, HTTP parsing, response-driven closes.")
 
     OPS = [["tick", 1], ["tick", 7], ["connects"], ["rx", 0, 5], ["tx", 0, 5], ["txb", 0, 5], ["eof", 0],
-           ["cp", 0, "11", 0, 0, 0, 1], ["cp", 0, "10", 0, 0, 0, 0], ["arrive"]]
+           ["req", 0, "11", 0, 0, "none"], ["req", 0, "10", 0, 0, "len"], ["arrive"]]
 
     def exhaustive(self, tier):
         L = 4 if tier == "thorough" else 3
@@ -226,16 +261,23 @@ class CHECK(core.Check):
                     ops.append(["txb", i, rng.choice([1, 5])])
                 elif x < 0.90:
                     ops.append(["eof", i])
-                else:
+                elif x < 0.95:
                     ops.append(["cp", i, rng.choice(["11", "11", "10", "xx"]), rng.randrange(2) if rng.random() < 0.4 else 0,
                                 rng.randrange(2), rng.randrange(2), rng.randrange(2)])
+                else:
+                    ops.append(["req", i, rng.choice(["11", "11", "10"]), rng.randrange(2) if rng.random() < 0.4 else 0,
+                                rng.randrange(2), rng.choice(["none", "none", "len", "badlen", "chunked"])])
             yield {"tls": rng.randrange(2), "front": rng.choice(["valet", "porter"]), "T": T, "ops": ops}
 
     # ------------------------------------------------------------------ both sides
     def requests(self, case):
         out = ["reset fixed %d %s %d" % (case["tls"], case["front"], case["T"])]
         for op in case["ops"]:
-            out.append(" ".join(str(x) for x in op))
+            if op[0] == "req":
+                text, ch, ln = request_text(*op[2:])
+                out.append("req %d %d %s %d %d %d %d" % (op[1], len(text), op[2], op[3], op[4], int(ch), int(ln)))
+            else:
+                out.append(" ".join(str(x) for x in op))
         return out
 
     def impl(self, case):
@@ -269,6 +311,8 @@ class CHECK(core.Check):
                 return "%s: store stamp is %s ticks, schedule says %d" % (what, tnow, now)
             # bytes moved: what the double accepted / returned on a connection that was there and not cut off
             if op[0] in ("rx", "tx") and op[2] > 0 and op[1] in prev and prev[op[1]][2] == 0:
+                last[op[1]] = now
+            if op[0] == "req" and op[1] in prev and prev[op[1]][2] == 0:
                 last[op[1]] = now
             for cid in conns:
                 last.setdefault(cid, now)           # first seen = accepted in this call
@@ -306,7 +350,7 @@ class CHECK(core.Check):
             _, conns, closed = parse(line)
             for cid in conns:
                 accept.setdefault(cid, now)
-            if op[0] in ("rx", "tx") and op[2] > 0 and op[1] in accept and now > accept[op[1]]:
+            if op[0] in ("rx", "tx", "req") and (op[0] == "req" or op[2] > 0) and op[1] in accept and now > accept[op[1]]:
                 moved_late.add(op[1])
             if op[0] == "connects":
                 for cid, (to, stop, cut, p) in conns.items():
